@@ -5,7 +5,7 @@
 set -u
 PATCH=$(readlink -f "$1"); PID=$2; TIER=${3:-quick}
 S=$(mktemp -d /tmp/nt_mut_XXXXXX)
-rsync -a --exclude .git /repo/ "$S/"
+rsync -a --exclude .git "${SWEEP_BASE:-/repo}/" "$S/"
 if ! (cd "$S" && patch -p1 --no-backup-if-mismatch -s < "$PATCH"); then echo "PATCH DOES NOT APPLY"; rm -rf "$S"; exit 3; fi
 cd "$(dirname "$0")/.."
 # isolated copy of the Lean project (with its build output) so that files regenerated from the
